@@ -216,7 +216,7 @@ func checkC09(c *km.Ctx) {
 			firstOK := primErrNilCall("first decrypt ok", decrypts[0], decErrIdx)
 			okLoad := c.F.At(loadCall).All(func(k km.Conj) bool { return s.Holds(k, firstOK) }) && held[loadCall][stateMutex]
 			// the plaintext handed to the loader is the decryption result
-			cl0, idx0 := callRes(km.Unwrap(loadCall.Common().Args[1]))
+			cl0, idx0 := callRes(localFieldValue(km.Unwrap(loadCall.Common().Args[1])))
 			okArg := cl0 == decrypts[0] && idx0 == 0
 			r.Add("R-C09-2", km.FuncName(unseal), "load after successful decryption", posOf(c, loadCall), "loader called under the mutex with the output of a decryption that returned no error", sprintf("fact=%v arg-is-decrypt-output=%v", okLoad, okArg), okLoad && okArg)
 			loadOK := primErrNilCall("load ok", loadCall, 0)
@@ -672,6 +672,7 @@ func checkPublishLoop(c *km.Ctx, pub *ssa.Function) {
 	}
 	// (2) must pass: append of this signer's key, or an edge that establishes "already published"
 	appendBlocks := map[*ssa.BasicBlock]bool{}
+	staleBase := ""
 	km.Instrs(pub, func(in ssa.Instruction) {
 		st, ok := in.(*ssa.Store)
 		if !ok {
@@ -685,7 +686,14 @@ func checkPublishLoop(c *km.Ctx, pub *ssa.Function) {
 		if cl, ok := km.Unwrap(st.Val).(*ssa.Call); ok {
 			if b, ok := cl.Common().Value.(*ssa.Builtin); ok && b.Name() == "append" && len(cl.Common().Args) == 2 {
 				if mentionsField(cl.Common().Args[0], "KeymasterPublicKeys") && sliceHoldsOnly(cl.Common().Args[1], signerPub) {
-					appendBlocks[in.Block()] = true
+					// appended to the list as it is now: a copy of the field taken before the loop does not hold
+					// the key the previous iteration appended, which the store then drops
+					base := km.Unwrap(cl.Common().Args[0])
+					if ld, isLd := base.(*ssa.UnOp); isLd && !inLoop[ld.Block()] {
+						staleBase = "the list appended to at " + posOf(c, in) + " was read before the loop (" + posOf(c, ld) + "): keys appended by earlier iterations are lost"
+					} else {
+						appendBlocks[in.Block()] = true
+					}
 				}
 			}
 		}
@@ -799,6 +807,9 @@ func checkPublishLoop(c *km.Ctx, pub *ssa.Function) {
 	}
 	dfs(fpCall.Block())
 	found := sprintf("append sites=%d, already-published edges=%d", len(appendBlocks), len(known))
+	if staleBase != "" {
+		bad = staleBase
+	}
 	if bad != "" {
 		found = bad + " (" + found + ")"
 	}
@@ -1104,4 +1115,44 @@ func checkPassphraseUnchanged(c *km.Ctx, unseal *ssa.Function) {
 			r.AnchorLost("R-C09-2", "call of unsealCA in secretInjectorHandler")
 		}
 	}
+}
+
+// localFieldValue: v reads a field of a local record that is assigned exactly once in the function: the value that
+// was assigned (v itself otherwise).
+func localFieldValue(v ssa.Value) ssa.Value {
+	u, ok := v.(*ssa.UnOp)
+	if !ok || u.Op != token.MUL {
+		return v
+	}
+	fa, ok := u.X.(*ssa.FieldAddr)
+	if !ok {
+		return v
+	}
+	al, ok := fa.X.(*ssa.Alloc)
+	if !ok {
+		return v
+	}
+	var val ssa.Value
+	n := 0
+	for _, ref := range *al.Referrers() {
+		f2, isFA := ref.(*ssa.FieldAddr)
+		if !isFA {
+			if _, isDbg := ref.(*ssa.DebugRef); !isDbg {
+				return v // the record escapes or is assigned whole
+			}
+			continue
+		}
+		if f2.Field != fa.Field {
+			continue
+		}
+		for _, r2 := range *f2.Referrers() {
+			if st, isSt := r2.(*ssa.Store); isSt && st.Addr == ssa.Value(f2) {
+				val, n = km.Unwrap(st.Val), n+1
+			}
+		}
+	}
+	if n == 1 {
+		return val
+	}
+	return v
 }
